@@ -20,6 +20,10 @@ enum Kind {
     Burn,
     Mint,
     ContractSend,
+    /// the same requests handed to the keeper directly (App::init_modules -> router.bank.execute):
+    /// no surrounding transaction rolls a half-done operation back (seed C09g)
+    SendDirect,
+    BurnDirect,
 }
 
 struct World {
@@ -121,8 +125,8 @@ fn step(w: &mut World, n: usize, kinds: &[Kind], shape_list: &[Vec<usize>]) {
         .collect();
     let total = add(sums[0], sums[1]);
     let (from, to): (Option<usize>, Option<usize>) = match kind {
-        Kind::Send => (Some(0), Some([1, 0, 2][choose(3)])),
-        Kind::Burn => (Some(0), None),
+        Kind::Send | Kind::SendDirect => (Some(0), Some([1, 0, 2][choose(3)])),
+        Kind::Burn | Kind::BurnDirect => (Some(0), None),
         Kind::Mint => (None, Some([1, 2][choose(2)])),
         Kind::ContractSend => (Some(3), Some([1, 3, 2][choose(3)])),
     };
@@ -135,6 +139,15 @@ fn step(w: &mut World, n: usize, kinds: &[Kind], shape_list: &[Vec<usize>]) {
             .execute(w.accts[0].clone(), BankMsg::Send { to_address: w.accts[to.unwrap()].to_string(), amount: coins.clone() }.into())
             .map(|_| ()),
         Kind::Burn => w.app.execute(w.accts[0].clone(), BankMsg::Burn { amount: coins.clone() }.into()).map(|_| ()),
+        Kind::SendDirect | Kind::BurnDirect => {
+            let msg = if matches!(kind, Kind::SendDirect) {
+                BankMsg::Send { to_address: w.accts[to.unwrap()].to_string(), amount: coins.clone() }
+            } else {
+                BankMsg::Burn { amount: coins.clone() }
+            };
+            let (sender, block) = (w.accts[0].clone(), w.app.block_info());
+            w.app.init_modules(|router, api, storage| cw_multi_test::Module::execute(&router.bank, api, storage, router, &block, sender, msg)).map(|_| ())
+        }
         Kind::Mint => w
             .app
             .sudo(SudoMsg::Bank(BankSudo::Mint { to_address: w.accts[to.unwrap()].to_string(), amount: coins.clone() }))
@@ -197,6 +210,11 @@ pub fn scenarios(tier: &str) -> Vec<Scenario> {
             let mut w = setup(true);
             check_queries(&w, "initial_");
             step(&mut w, 0, &all, &full);
+        }));
+        let full2 = shapes(2);
+        v.push(Scenario::new("one_step_through_the_keeper_directly", &["some_ok", "some_err"], move || {
+            let mut w = setup(true);
+            step(&mut w, 0, &[Kind::SendDirect, Kind::BurnDirect], &full2);
         }));
     }
     {
